@@ -781,7 +781,11 @@ fn cache_isolation(op: u8) {
         let k2 = nd::any_u64();
         nd::assume(k1 >> 4 == k2 >> 4 && (k1 & 15) != (k2 & 15) && (k1 & 15) != 0 && (k2 & 15) != 0);
         let idx = k1 >> 4;
-        let e = GEnt { key: idx, conflict: k1 & 15, val: 0, exp: time_at(now, any_duration(4)) };
+        // created up to 4 s ago with a TTL <= 4 s or none: the resident entry may already have expired
+        // without having been swept (it is then invisible to lookups but still resident and charged)
+        let back = any_duration(4);
+        nd::assume(back <= now);
+        let e = GEnt { key: idx, conflict: k1 & 15, val: 0, exp: time_at(now - back, any_duration(4)) };
         let store = store_from(Some(e), None, None, NdValidator::new(Some(true)));
         let charge = nd::any_i64_in(0, COST_MAX);
         let costs = slfu_from([Some((idx, charge)), None, None], nd::any_i64_in(1, COST_MAX));
@@ -811,6 +815,7 @@ fn cache_isolation(op: u8) {
             vassert!(raw(&p.store, idx) == Some(e) && p.cb.all() == 0, "processing the colliding Delete leaves the resident value in place, no callback");
             vassert!(p.sp_ok(idx), "the resident key is still charged after a colliding remove (resident <=> charged)");
             vcover!(true, "[remove] colliding remove");
+            vcover!(!e.exp.is_zero() && now - th::created(&e.exp) >= th::ttl_of(&e.exp), "[remove] colliding remove while the resident entry is expired but unswept");
         }
         std::mem::forget(p);
 }
